@@ -338,7 +338,7 @@ func DefaultCachePolicy(config Config) Policy {
 			return false, 0
 		}
 
-		cacheControl := headers.Get("Cache-Control")
+		cacheControl := headerFieldValues(headers, "Cache-Control")
 		if hasCacheControlDirective(cacheControl, "no-cache", "no-store", "private") {
 			return false, 0
 		}
@@ -358,6 +358,25 @@ func DefaultCachePolicy(config Config) Policy {
 
 		return true, config.DefaultTTL
 	}
+}
+
+// headerFieldValues joins every field line of name, under any spelling of the
+// header key, into one comma-separated list. A handler may add several
+// Cache-Control lines or set the map entry with a non-canonical key; each of
+// them reaches the client, so each must be honoured here.
+func headerFieldValues(headers http.Header, name string) string {
+	var keys []string
+	for key := range headers {
+		if strings.EqualFold(key, name) {
+			keys = append(keys, key)
+		}
+	}
+	slices.Sort(keys)
+	var values []string
+	for _, key := range keys {
+		values = append(values, headers[key]...)
+	}
+	return strings.Join(values, ",")
 }
 
 func cacheableMethodSet(methods []string) map[string]struct{} {
